@@ -9,7 +9,7 @@ Definition valid_batch (o : eopts) : Prop := forall mn mx, batch_cfg o = Some (m
 Lemma exporter_accounting o outs ops :
   o_sig o <> Profiles -> valid_batch o -> Forall eop_nonneg ops ->
   let st := run_exporter o outs ops in
-  s_offered st + s_wfr_failed st = cnt (o_sig o) (s_led st) + qsum (s_queue st) /\
+  s_offered st = cnt (o_sig o) (s_led st) + qsum (s_queue st) /\
   (is_storage o = false -> s_queue st = []).
 Proof.
   intros Hsig Hb F st.
@@ -24,11 +24,10 @@ Lemma exporter_balance_volatile_l o outs ops :
   o_sig o <> Profiles -> valid_batch o -> Forall eop_nonneg ops ->
   is_storage o = false ->
   let st := run_exporter o outs ops in
-  s_wfr_failed st = 0 ->
   lget (ExpSent (o_sig o)) (s_led st) + lget (ExpFailed (o_sig o)) (s_led st) + lget (ExpEnqFailed (o_sig o)) (s_led st)
   = s_offered st.
 Proof.
-  intros Hsig Hb F Hs st Hw.
+  intros Hsig Hb F Hs st.
   destruct (exporter_accounting o outs ops Hsig Hb F) as (A & Q). fold st in A, Q.
   rewrite (Q Hs) in A. unfold qsum in A. cbn in A. unfold cnt in A. lia.
 Qed.
@@ -39,7 +38,7 @@ Lemma exporter_excess_l o outs ops :
   o_sig o <> Profiles -> valid_batch o -> Forall eop_nonneg ops ->
   let st := run_exporter o outs ops in
   lget (ExpSent (o_sig o)) (s_led st) + lget (ExpFailed (o_sig o)) (s_led st) + lget (ExpEnqFailed (o_sig o)) (s_led st)
-  = s_offered st - qsum (s_queue st) + s_wfr_failed st.
+  = s_offered st - qsum (s_queue st).
 Proof.
   intros Hsig Hb F st.
   destruct (exporter_accounting o outs ops Hsig Hb F) as (A & Q). fold st in A. unfold cnt in A. lia.
@@ -62,23 +61,20 @@ Definition balance (o : eopts) (st : est) : Prop :=
 Lemma s2_refuted_l :
   exists o outs ops, o_sig o <> Profiles /\ valid_batch o /\ Forall eop_nonneg ops /\
     let st := run_exporter o outs ops in
-    ~ balance o st /\ s_offered st = 5 /\ s_stored st = 5 /\ lget (ExpFailed Logs) (s_led st) = 5 /\ s_wfr_failed st = 0.
+    ~ balance o st /\ s_offered st = 5 /\ s_stored st = 5 /\ lget (ExpFailed Logs) (s_led st) = 5.
 Proof.
   exists opts_s2, [AHang], [OOffer 5]. split; [discriminate|]. split; [intros mn mx; discriminate|].
   split; [constructor; [cbn; lia|constructor]|]. vm_compute. repeat split; try reflexivity. discriminate.
 Qed.
 
-(* C19-WFR: legacy batcher without a queue (wait_for_result), one request of 5 items, permanent error *)
-Lemma wfr_refuted_l :
-  exists o outs ops, o_sig o <> Profiles /\ valid_batch o /\ Forall eop_nonneg ops /\ is_storage o = false /\
-    let st := run_exporter o outs ops in
-    ~ balance o st /\ s_offered st = 5 /\ s_stored st = 0 /\
-    lget (ExpFailed Logs) (s_led st) = 5 /\ lget (ExpEnqFailed Logs) (s_led st) = 5 /\ s_shut st = 0.
-Proof.
-  exists opts_wfr, [APermanent], [OOffer 5]. split; [discriminate|].
-  split; [intros mn mx H; vm_compute in H; inversion H; lia|].
-  split; [constructor; [cbn; lia|constructor]|]. split; [reflexivity|]. vm_compute. repeat split; try reflexivity. discriminate.
-Qed.
+(* regression: the history that witnessed C19-WFR before repo fix af774a6ec (legacy batcher without a queue =
+   wait_for_result, one request of 5 items, permanent error: then send_failed = 5 AND enqueue_failed = 5) *)
+Lemma wfr_regression_l :
+  let st := run_exporter opts_wfr [APermanent] [OOffer 5] in
+  o_sig opts_wfr <> Profiles /\ is_wfr opts_wfr = true /\
+  lget (ExpSent Logs) (s_led st) = 0 /\ lget (ExpFailed Logs) (s_led st) = 5 /\ lget (ExpEnqFailed Logs) (s_led st) = 0 /\
+  s_offered st = 5 /\ s_stored st = 0.
+Proof. vm_compute. repeat split; try reflexivity. discriminate. Qed.
 
 (* ---- gauges -------------------------------------------------------------------------------- *)
 (* every reading of the size gauge is the queue's size field at that moment (the callback observes
